@@ -445,7 +445,9 @@ def rules(tier):
             # fix 718673a: a quit inside the last Markov level - the resumed session must not generate the level again after finishing it
             ('C15.R17', _shared_rule('c08', 'r28_exhausted_session_restores_nothing')),
             # mutation sweep: `if not load_session:` in front of the OMEN restore
-            ('C15.R18', r18_restore_gate)]
+            ('C15.R18', r18_restore_gate),
+            # C15-fb: the session saved right after create_guesses, before the next pop lowers the saved position
+            ('C15.R19', _shared_rule('c08', 'r23_no_save_after_generation'))]
 
 
 META = {
